@@ -139,12 +139,14 @@ type clntTransport struct {
 	expiry    time.Duration // t0 + expiry: the total read timer has certainly fired
 	ctx       context.Context
 	ctxEnd    time.Time // the caller's deadline (scripts with a ctx step of kind 2)
+	closed    bool      // Close has been called: SetWriteDeadline / Write are refused
+	serial    bool
 }
 
 func (t *clntTransport) Write(p []byte) (int, error) {
 	t.rec.add(L(I(4), B(p)))
 	t.t0 = time.Now()
-	if t.sc.wr {
+	if t.sc.wr || (t.closed && t.serial) {
 		return 0, clntErrWrite
 	}
 	return len(p), nil
@@ -193,7 +195,7 @@ func (t *clntTransport) Read(p []byte) (int, error) {
 		}
 		if nx.timer {
 			// block past the total read timeout
-			if time.Since(t.t0) > clntTimerT/2 {
+			if time.Since(t.t0) > t.expiry/3 {
 				t.late = true // too slow to be sure that the timer had not fired before this read
 			}
 			time.Sleep(time.Until(t.t0.Add(t.expiry)))
@@ -202,7 +204,7 @@ func (t *clntTransport) Read(p []byte) (int, error) {
 	return n, err
 }
 
-func (t *clntTransport) Close() error { return nil }
+func (t *clntTransport) Close() error { t.closed = true; return nil }
 
 type clntAddr struct{}
 
@@ -217,7 +219,7 @@ func (c clntConn) SetDeadline(time.Time) error     { return nil }
 func (c clntConn) SetReadDeadline(time.Time) error { return nil }
 func (c clntConn) SetWriteDeadline(time.Time) error {
 	c.rec.add(L(I(6)))
-	if c.sc.swd {
+	if c.sc.swd || c.closed {
 		return clntErrSWD
 	}
 	return nil
@@ -246,9 +248,17 @@ type clntCase struct {
 	rq      *clntRq
 	sc      clntScript
 	want    V
+	ops     []clntOp // entry cdoseq: several calls on one client object (conn: the serial port is given)
 }
 
 func (c *clntCase) args() V {
+	if c.ops != nil {
+		ops := make([]V, len(c.ops))
+		for i, o := range c.ops {
+			ops[i] = o.val()
+		}
+		return L(I(c.kind), Bool(c.conn), Bool(c.flusher), Bool(c.hooks), L(ops...))
+	}
 	rq := L()
 	if c.rq != nil {
 		rq = c.rq.val()
@@ -300,13 +310,129 @@ func clntProject(resp packet.Response, err error) V {
 	return vErr(append([]V{nilv, I(0)}, projErrTail(err)...)...)
 }
 
-// clntRunOnce performs the call; returns [result, trace] and whether the timing was unreliable
-func clntRunOnce(c *clntCase, hooks bool, try int) ([]V, bool) {
-	rec := &clntRec{}
+var clntErrDial = errors.New("scripted: dial fails")
+
+// how long a call may take before it is reported as not returning (the scripted outcomes need
+// milliseconds, the timer cases well under a second)
+const (
+	clntWatchdog      = 5 * time.Second
+	clntWatchdogAfter = 300 * time.Millisecond // once a call on this client object has hung
+)
+
+// clntClient is one client object of the library with its scripted transport
+type clntClient struct {
+	kind     int
+	tr       *clntTransport
+	rec      *clntRec
+	net      *modbus.Client
+	ser      *modbus.SerialClient
+	timeout  time.Duration
+	dialFail bool
+	hung     bool
+}
+
+func clntNewClient(kind int, port, flusher, hooks bool, timeout time.Duration) *clntClient {
+	cc := &clntClient{kind: kind, rec: &clntRec{}, timeout: timeout}
+	cc.tr = &clntTransport{rec: cc.rec, cancel: func() {}, serial: kind == 2}
+	if kind == 2 {
+		var p io.ReadWriteCloser
+		if port {
+			if flusher {
+				p = clntFlushPort{clntPort{cc.tr}}
+			} else {
+				p = clntPort{cc.tr}
+			}
+		}
+		opts := []modbus.SerialClientOptionFunc{modbus.WithSerialReadTimeout(timeout)}
+		if hooks {
+			opts = append(opts, modbus.WithSerialHooks(&clntHooks{cc.rec}))
+		}
+		cc.ser = modbus.NewSerialClient(p, opts...)
+		return cc
+	}
+	conf := modbus.ClientConfig{
+		WriteTimeout: time.Hour,
+		ReadTimeout:  timeout,
+		DialContextFunc: func(context.Context, string) (net.Conn, error) {
+			if cc.dialFail {
+				return nil, clntErrDial
+			}
+			cc.tr.closed = false
+			return clntConn{cc.tr}, nil
+		},
+	}
+	if hooks {
+		conf.Hooks = &clntHooks{cc.rec}
+	}
+	if kind == 0 {
+		cc.net = modbus.NewTCPClientWithConfig(conf)
+	} else {
+		cc.net = modbus.NewRTUClientWithConfig(conf)
+	}
+	return cc
+}
+
+// watch runs f and reports whether it returned in time
+func (cc *clntClient) watch(f func()) bool {
+	done := make(chan struct{})
+	go func() {
+		defer close(done)
+		f()
+	}()
+	d := clntWatchdog
+	if cc.hung {
+		d = clntWatchdogAfter
+	}
+	select {
+	case <-done:
+		return true
+	case <-time.After(d):
+		cc.hung = true
+		return false
+	}
+}
+
+// connect / close: [0] returned nil, [1] returned an error, [98] did not return
+func (cc *clntClient) connect(fail bool) V {
+	if cc.net == nil {
+		return L(I(0)) // the serial client has no Connect
+	}
+	cc.dialFail = fail
+	var err error
+	if !cc.watch(func() { err = cc.net.Connect(context.Background(), "scripted") }) {
+		return L(I(98))
+	}
+	if err != nil {
+		return L(I(1))
+	}
+	return L(I(0))
+}
+
+func (cc *clntClient) close() V {
+	var err error
+	ok := cc.watch(func() {
+		if cc.net != nil {
+			err = cc.net.Close()
+		} else {
+			err = cc.ser.Close()
+		}
+	})
+	if !ok {
+		return L(I(98))
+	}
+	if err != nil {
+		return L(I(1))
+	}
+	return L(I(0))
+}
+
+// do performs one call with the given script; returns [result, trace] and whether the timing
+// was unreliable
+func (cc *clntClient) do(rq *clntRq, sc clntScript, try int) ([]V, bool) {
 	ctx, cancel := context.WithCancel(context.Background())
 	defer cancel()
 	var ctxEnd time.Time
-	if d := c.sc.deadlineStep(); d >= 0 {
+	if d := sc.deadlineStep(); d >= 0 {
 		// the caller's context has a deadline of its own, far shorter than the read timeout
 		ctxEnd = time.Now().Add(clntCtxDeadline0 << uint(try))
 		if d == 0 {
@@ -316,74 +442,128 @@ func clntRunOnce(c *clntCase, hooks bool, try int) ([]V, bool) {
 		ctx, cancel2 = context.WithDeadline(ctx, ctxEnd)
 		defer cancel2()
 	}
-	timeout := time.Hour
-	if c.sc.hasTimer() {
-		timeout = clntTimerT
-	}
-	tr := &clntTransport{rec: rec, sc: c.sc, cancel: cancel, t0: time.Now(), expiry: timeout + clntTimerMargin,
-		ctx: ctx, ctxEnd: ctxEnd}
-	if c.kind == 2 {
+	tr := cc.tr
+	cc.rec.mu.Lock()
+	cc.rec.ev = nil
+	cc.rec.mu.Unlock()
+	tr.sc, tr.pos, tr.exhausted, tr.late = sc, 0, false, false
+	tr.cancel, tr.ctx, tr.ctxEnd, tr.t0 = cancel, ctx, ctxEnd, time.Now()
+	tr.expiry = cc.timeout + clntTimerMargin
+	if cc.kind == 2 {
 		tr.expiry += clntSerialSleep
 	}
 	var req packet.Request
-	if c.rq != nil {
-		req = c.rq.req
+	if rq != nil {
+		req = rq.req
 	}
-	if len(c.sc.steps) > 0 && c.sc.steps[0].ctx == 1 {
+	if len(sc.steps) > 0 && sc.steps[0].ctx == 1 {
 		cancel()
 	}
-	res := guard(func() V {
-		var resp packet.Response
-		var err error
-		if c.kind == 2 {
-			var port io.ReadWriteCloser
-			if c.conn {
-				if c.flusher {
-					port = clntFlushPort{clntPort{tr}}
-				} else {
-					port = clntPort{tr}
-				}
-			}
-			opts := []modbus.SerialClientOptionFunc{modbus.WithSerialReadTimeout(timeout)}
-			if hooks {
-				opts = append(opts, modbus.WithSerialHooks(&clntHooks{rec}))
-			}
-			resp, err = modbus.NewSerialClient(port, opts...).Do(ctx, req)
-		} else {
-			conf := modbus.ClientConfig{
-				WriteTimeout: time.Hour,
-				ReadTimeout:  timeout,
-				DialContextFunc: func(context.Context, string) (net.Conn, error) {
-					return clntConn{tr}, nil
-				},
-			}
-			if hooks {
-				conf.Hooks = &clntHooks{rec}
-			}
-			var cl *modbus.Client
-			if c.kind == 0 {
-				cl = modbus.NewTCPClientWithConfig(conf)
+	var res V
+	returned := cc.watch(func() {
+		res = guard(func() V {
+			var resp packet.Response
+			var err error
+			if cc.kind == 2 {
+				resp, err = cc.ser.Do(ctx, req)
 			} else {
-				cl = modbus.NewRTUClientWithConfig(conf)
+				resp, err = cc.net.Do(ctx, req)
 			}
-			if c.conn {
-				if e := cl.Connect(context.Background(), "scripted"); e != nil {
-					panic(e)
-				}
-			}
-			resp, err = cl.Do(ctx, req)
-		}
-		return clntProject(resp, err)
+			return clntProject(resp, err)
+		})
 	})
+	if !returned {
+		return []V{L(I(98)), L()}, false
+	}
 	if tr.exhausted {
 		return []V{L(I(99)), L()}, tr.late
 	}
-	rec.mu.Lock()
-	defer rec.mu.Unlock()
-	return []V{res, L(rec.ev...)}, tr.late
+	cc.rec.mu.Lock()
+	defer cc.rec.mu.Unlock()
+	return []V{res, L(cc.rec.ev...)}, tr.late
+}
+
+func clntTimeoutFor(try int, scripts ...clntScript) time.Duration {
+	for _, sc := range scripts {
+		if sc.hasTimer() {
+			return clntTimerT << uint(try)
+		}
+	}
+	return time.Hour
+}
+
+// clntRunOnce: a fresh client object, connected if the case says so, one call
+func clntRunOnce(c *clntCase, hooks bool, try int) ([]V, bool) {
+	cc := clntNewClient(c.kind, c.conn, c.flusher, hooks, clntTimeoutFor(try, c.sc))
+	if c.conn && cc.net != nil {
+		if e := cc.net.Connect(context.Background(), "scripted"); e != nil {
+			panic(e)
+		}
+	}
+	return cc.do(c.rq, c.sc, try)
+}
+
+// ---------- sequences of calls on one client object ----------
+
+type clntOp struct {
+	what int // 0 Connect, 1 Close, 2 Do
+	fail bool
+	rq   *clntRq
+	sc   clntScript
+	want V
+}
+
+func (o clntOp) val() V {
+	switch o.what {
+	case 0:
+		return L(I(0), Bool(o.fail))
+	case 1:
+		return L(I(1))
+	}
+	rq := L()
+	if o.rq != nil {
+		rq = o.rq.val()
+	}
+	want := o.want
+	if want == nil {
+		want = L()
+	}
+	return L(I(2), rq, o.sc.val(), want)
+}
+
+func clntRunSeq(c *clntCase) V {
+	var out []V
+	for try := 0; try < 6; try++ {
+		var scripts []clntScript
+		for _, o := range c.ops {
+			scripts = append(scripts, o.sc)
+		}
+		cc := clntNewClient(c.kind, c.conn, c.flusher, c.hooks, clntTimeoutFor(try, scripts...))
+		out = out[:0]
+		late := false
+		for _, o := range c.ops {
+			switch o.what {
+			case 0:
+				out = append(out, cc.connect(o.fail))
+			case 1:
+				out = append(out, cc.close())
+			default:
+				r, l := cc.do(o.rq, o.sc, try)
+				late = late || l
+				out = append(out, L(r...))
+			}
+		}
+		if !late {
+			break
+		}
+	}
+	return L(out...)
 }
 
 func clntRunCase(c *clntCase) V {
+	if c.ops != nil {
+		return clntRunSeq(c)
+	}
 	run := func(hooks bool) []V {
 		var out []V
 		for try := 0; try < 6; try++ {
@@ -432,6 +612,9 @@ func (r *clntRunner) flush() {
 		name := "cdo"
 		if c.pair {
 			name = "cdo2"
+		}
+		if c.ops != nil {
+			name = "cdoseq"
 		}
 		emit(name, c.args(), res[i])
 	}
